@@ -12,7 +12,39 @@ TB_CONN = [
     'ConnectionId is opaque: == is equality of ids, clone preserves the id (broker/src/conn_id.rs not verified)',
 ]
 
+KANI_CORE_BUF = ('core/src/buf_ext.rs', 'kani/core/buf_ext_harness.rs')
+KANI_CORE_KEY = ('core/src/tags/key_impl.rs', 'kani/core/key_impl_harness.rs')
+KANI_CORE_DESER = ('core/src/deserializer.rs', 'kani/core/deserializer_harness.rs')
+KANI_CORE_CONT = ('core/src/serializer.rs', 'kani/core/containers_harness.rs')
+TB_STUB = ['kani::stub of bytes::BytesMut::reserve_inner by a function that asserts false: sound (reachability of the '
+           'real function is a proof obligation), used to keep the re-allocation path out of the formula']
+
 PROPS = {
+    'C01': dict(
+        level='proof',
+        kani=[dict(package='aldrin-core', injections=[KANI_CORE_BUF, KANI_CORE_KEY, KANI_CORE_DESER, KANI_CORE_CONT],
+                   jobs=6)],
+        trusted_base=TB_KANI + TB_STUB + ['bytes crate (Buf for &[u8], BytesMut) is verified as compiled'],
+        assumptions=['container obligations are bounded to 2 elements (labelled bounded, not counted as proved)'],
+        undecided_clauses=[
+            'impl Serialize/Deserialize<tags::Value> for Value (43-way dispatch over HashMap-backed maps/sets)',
+            'unbounded element counts; strings (Buf::copy_to_bytes builds a BytesMut: out of CBMC\'s reach here)',
+            'nesting chains to depth 32/33 through real container types',
+        ],
+        explanation='contract harnesses on the real varint/zigzag primitives, scalar (de)serializers (all values, '
+                    'bit-for-bit), depth counter, key codecs and (bounded) both container epochs',
+    ),
+    'C07': dict(
+        level='proof',
+        kani=[dict(package='aldrin-core', injections=[KANI_CORE_BUF, KANI_CORE_KEY, KANI_CORE_DESER], jobs=6)],
+        trusted_base=TB_KANI + TB_STUB + ['bytes crate (Buf for &[u8], BytesMut) is verified as compiled'],
+        assumptions=['primitives read at most N+1 bytes, so slice lengths beyond N+2 add no behaviour (argued, not '
+                     'machine-checked)'],
+        undecided_clauses=['allocation bound (CBMC has no allocation accounting)',
+                           'recursive walkers on unbounded inputs'],
+        explanation='contract harnesses (assume-pre/assert-post) on the real bounds-checked primitives and key '
+                    'skipping/decoding functions over fully symbolic byte slices',
+    ),
     'C04': dict(
         level='proof',
         verus_units=['broker_service', 'broker_conn_state'],
